@@ -95,6 +95,29 @@ func parseInt64(bytes []byte) (r int64, e error) {
 	return r, e
 }
 
+// parseSignedInt64 reads the two's-complement contents of an INTEGER or ENUMERATED.
+func parseSignedInt64(bytes []byte) (r int64, e error) {
+	if len(bytes) == 0 {
+		e = fmt.Errorf("INTEGER without content")
+		return r, e
+	}
+	if len(bytes) > 8 {
+		e = fmt.Errorf("out of range of int64")
+		return r, e
+	}
+
+	for _, b := range bytes {
+		r <<= 8
+		r |= int64(b)
+	}
+
+	// sign-extend from the most significant content bit
+	shift := uint(64 - 8*len(bytes))
+	r = (r << shift) >> shift
+
+	return r, e
+}
+
 func parseBool(b byte) (bool, error) {
 	return b != 0, nil
 }
@@ -137,8 +160,8 @@ func ParseField(v reflect.Value, bytes []byte, params fieldParameters) error {
 		v.Set(reflect.ValueOf(val))
 		return nil
 	case EnumeratedType:
-		val, parse_err := parseInt64(bytes[talOff:])
-		if err != nil {
+		val, parse_err := parseSignedInt64(bytes[talOff:])
+		if parse_err != nil {
 			return parse_err
 		}
 
@@ -161,7 +184,7 @@ func ParseField(v reflect.Value, bytes []byte, params fieldParameters) error {
 			return nil
 		}
 	case reflect.Int, reflect.Int32, reflect.Int64:
-		if parsedInt, parse_err := parseInt64(bytes[talOff:]); err != nil {
+		if parsedInt, parse_err := parseSignedInt64(bytes[talOff:]); parse_err != nil {
 			return parse_err
 		} else {
 			val.SetInt(parsedInt)
